@@ -129,7 +129,7 @@ fn main() {
                 let tbl = [0usize, 4, 4, 8, 16][rng.below(5) as usize];
                 vec![bddgen::bdd_line(&prog, cache, tbl)]
             }
-            "sdd" => vec![sddstream::sdd_line(&mut rng, maxvars, maxops)],
+            "sdd" => sddstream::sdd_lines(&mut rng, maxvars, maxops),
             "up" => vec![upstream::up_line(&mut rng, maxvars, maxops)],
             "td" => vec![tdstream::td_line(&mut rng, maxvars)],
             "ord" => ordstream::ord_lines(&mut rng, idx, maxvars),
